@@ -190,7 +190,7 @@ KINDS = ["I", "P", "S", "L"]  # idle keep-alive, partial head, finishing within 
 
 
 def c15_script(combo: Tuple[str, ...], source: str, long_kind: str, after: str,
-               sd: str = "complete", short_ms: int = 1000, **cfg_kw: Any) -> Dict[str, Any]:
+               sd: str = "complete", short_ms: int = 1000, tag: str = "", **cfg_kw: Any) -> Dict[str, Any]:
     """combo: one letter per connection. long_kind: 'sleep' (ends by itself after 30 s) or 'gate'
     (never ends before the wind-down). after: what the clients try after the trigger."""
     apps: Dict[str, Any] = {}
@@ -244,6 +244,8 @@ def c15_script(combo: Tuple[str, ...], source: str, long_kind: str, after: str,
     if "L" in combo and long_kind == "sleep":
         steps.append(dt(31000))
     fam = "c15/%s/%s/%s/%s/%s" % (source, "".join(combo) or "none", long_kind, after, sd)
+    if tag:
+        fam += "/" + tag
     return script(fam, steps, {"shutdown": sd}, apps=apps, **cfgd)
 
 
@@ -271,6 +273,18 @@ def gen_c15(tier: str, rng: random.Random) -> Iterator[Dict[str, Any]]:
             for source in ("callable", "max_requests"):
                 yield c15_script(combo, source, "gate", "all", short_ms=min(1000, max(g // 2, 1)),
                                  graceful=g, shutdown_to=sto)
+    # the two lifespan timeouts far apart, either way round: a lifespan shutdown that never answers is waited
+    # for shutdown_timeout (not startup_timeout), one that answers slowly but in time is waited for
+    for combo in [(), ("S",), ("L",)]:
+        for source in ("callable", "max_requests"):
+            yield c15_script(combo, source, "gate", "none", sd="hang", startup_to=9000, shutdown_to=500,
+                             tag="timeouts-differ/hang")
+            sc = c15_script(combo, source, "gate", "none", sd="complete", startup_to=400, shutdown_to=5000,
+                            tag="timeouts-differ/slow-answer")
+            sc["life"]["sd_gate"] = True
+            # (the shutdown message arrives at the latest graceful after the trigger; the answer 1.5 s later)
+            sc["steps"] = sc["steps"][:-1] + [dt(1500), go("life_sd"), dt(5000 + 1500)]
+            yield sc
     # a request finishing just inside / just outside the grace period
     for short_ms in ([2900, 3100] + ([1, 2999, 3001, 2000] if thorough else [])):
         for source in ("callable", "max_requests"):
@@ -337,6 +351,17 @@ def gen_c18w(tier: str, rng: random.Random) -> Iterator[Dict[str, Any]]:
                 steps += [send(k + 1, "q%d" % (k + 1), **({"upgrade": "h2c"} if up else {})), dt(10)]
             steps += [dt(CFG["graceful"] + CFG["shutdown_to"] + 1500)]
             yield script("c18w/mr%d/h2c-%s" % (mr, mix), steps, max_requests=mr, ka=60000)
+    # a worker started without a shutdown trigger (hypercorn.trio.serve() without one; asyncio always makes its
+    # own from the signals, so the option only changes the trio runs) still recycles on its request count
+    for mr in (1, 2):
+        total = mr + 3
+        steps = []
+        for k in range(total):
+            steps += [connect(k + 1), send(k + 1, "q%d" % (k + 1)), dt(10)]
+        steps += [dt(CFG["graceful"] + CFG["shutdown_to"] + 1500)]
+        sc = script("c18w/mr%d/no-shutdown-trigger" % mr, steps, max_requests=mr, ka=60000)
+        sc["no_trigger"] = True
+        yield sc
     # requests in progress while the limit is crossed (counted when taken on, not when finished)
     for mr in (1, 2):
         apps = {"q1": slow(500), "q2": slow(500), "q3": slow(500), "q4": slow(500)}
